@@ -33,6 +33,8 @@ def _build(spec):
         raise Discard()
     bank = call("bank constructor", build_bank, spec["bank"])
     comp = call("STFT constructor", build_stft, spec, bank)
+    # another computer around the SAME bank object must not influence this one
+    call("STFT constructor (sibling)", build_stft, dict(spec, include_energy=not spec["include_energy"], use_power=not spec["use_power"]), bank)
     return bank, comp
 
 
